@@ -102,6 +102,14 @@ Proof.
   intros Hne L. unfold group_mean. pose proof (sumwQ_pos g Hne). apply Qle_shift_div_r; [lra|]. apply msum_ub; auto.
 Qed.
 
+Lemma msum_red_eq g : msum_red g == msum g.
+Proof.
+  induction g as [|c g IH]; [reflexivity|]. unfold msum_red, msum in *. cbn [fold_right]. rewrite Qred_correct, IH. reflexivity.
+Qed.
+
+Lemma group_mean_red_eq g : group_mean_red g == group_mean g.
+Proof. unfold group_mean_red, group_mean. rewrite msum_red_eq. reflexivity. Qed.
+
 Lemma group_mean_single x : group_mean [x] == c_mean x.
 Proof.
   unfold group_mean. rewrite msum_cons, sumw_cons. cbn [msum sumw fold_right]. rewrite Z.add_0_r. fold (c_w x).
@@ -323,5 +331,5 @@ Proof.
   - pose proof (forallb_combine _ _ _ _ G H2) as G2. eapply Forall2_impl; [|exact G2].
     intros o g [A B]. cbn [fst snd] in B. split.
     + unfold c_wz in A. rewrite <- A. symmetry. apply Pos2Z.id.
-    + unfold close in B. apply Qle_bool_iff in B. exact B.
+    + unfold close in B. apply Qle_bool_iff in B. rewrite group_mean_red_eq in B. exact B.
 Qed.
